@@ -344,6 +344,8 @@ def discharge(prog, body, kind, bi, t, bounds):
             named = {v for v, tg in body.switch_edges(sw) if isinstance(v, int)}
             if r[0] >= 0 and r[1] - r[0] < 64 and all(v in named for v in range(r[0], r[1] + 1)):
                 return 'fallback arm of a match on a value in [%d,%d], every one of which has its own arm' % r
+    if kind in ('call:Index::index', 'call:IndexMut::index_mut') and 'RangeFull' in (t['callee'].get('args') or ''):
+        return 'indexing by `..` takes the whole sequence'
     if kind.startswith('assert:BoundsCheck'):
         c = strip(body.op_term(t['cond'], (bi, None)))
         if isinstance(c, tuple) and c[0] == 'bin' and c[1] == 'Lt':
